@@ -1,0 +1,19 @@
+//go:build verif
+
+package result
+
+//@ func SubmittingMember.waitForSubmissionEligibility
+//@   property C47
+//@   requires sm.index >= 1
+//@   requires startBlockHeight <= 4611686018427387904 && blockStep <= 4294967295
+//@   nowrap
+//@   ensures err == nil ==> @isWaiter(result0) && @waiterHeight(result0) == startBlockHeight + (sm.index - 1) * blockStep
+
+//@ func SubmittingMember.SubmitDKGResult
+//@   property C47
+//@   requires sm.index >= 1 && startBlockHeight <= 4611686018427387904
+//@   requires !ghost.observedSubmitted
+//@   recv-from onSubmittedResultChan: modifies ghost.observedSubmitted; ghost.observedSubmitted
+//@   loop 1 invariant !ghost.observedSubmitted
+//@   assert call:DistributedKeyGenerationInterface.SubmitDKGResult : ghost.now >= startBlockHeight + (sm.index - 1) * @cfgStep(chainRelay)
+//@   modifies ghost.now, ghost.observedSubmitted
